@@ -141,6 +141,8 @@ pub enum Ev {
     Remove { index: u8 },
     /// remove_if: finished jobs / reported jobs
     RemoveIfFinished,
+    /// extract_if over the finished jobs, dropped after taking `take` of them
+    ExtractSome { take: u8 },
     Report { index: u8 },
     SetLastAsync { slot: u8 },
     DisownAll,
@@ -196,7 +198,11 @@ fn gen_history(rng: &mut Rng, tier: Tier) -> History {
             x < w_remove
         } {
             if rng.below(4) == 0 {
-                Ev::RemoveIfFinished
+                if rng.below(3) == 0 {
+                    Ev::ExtractSome { take: rng.below(3) as u8 }
+                } else {
+                    Ev::RemoveIfFinished
+                }
             } else {
                 Ev::Remove {
                     index: rng.below(6) as u8,
@@ -407,6 +413,23 @@ pub fn run_history(h: &History, hs: &mut HistStats) -> Option<(String, String)> 
                     }
                     if jobs.len() + finished.len() != before_len {
                         return fail("remove", "remove_if removed the wrong number of jobs".into());
+                    }
+                }
+                Ev::ExtractSome { take } => {
+                    let taken: Vec<i32> = jobs
+                        .extract_if(|_, j| !j.state.is_alive())
+                        .take(*take as usize)
+                        .map(|(_, j)| j.pid.0)
+                        .collect();
+                    *hs.reach.entry("extract_if dropped early").or_insert(0) += 1;
+                    for p in &taken {
+                        where_is.remove(p);
+                        if jobs.find_by_pid(Pid(*p)).is_some() {
+                            return fail("remove", format!("extract_if yielded job {p} but it is still in the list"));
+                        }
+                    }
+                    if jobs.len() + taken.len() != before_len {
+                        return fail("remove", "a partially consumed extract_if removed the wrong number of jobs".into());
                     }
                 }
                 Ev::Report { index } => {
